@@ -52,3 +52,19 @@ def trace_digest(trace):
 def program_digest(cfg, seed, ops):
     env = configs.build(cfg, seed)
     return trace_digest(run_ops(env, ops))
+
+
+def entries_equal(x, y, tol=1e-12):
+    """trace entries equal; rewards compared with a tolerance (summation order / compensated summation may differ by an ulp)"""
+    import math
+    if x[0] == 'step' and y[0] == 'step':
+        return x[1] == y[1] and math.isclose(x[2], y[2], rel_tol=tol, abs_tol=tol) and x[3:] == y[3:]
+    return x == y
+
+
+def first_difference(t1, t2):
+    """index of the first differing entry, or None"""
+    for i, (x, y) in enumerate(zip(t1, t2)):
+        if not entries_equal(x, y):
+            return i
+    return None if len(t1) == len(t2) else min(len(t1), len(t2))
